@@ -546,6 +546,18 @@ impl KeyIdMethod {
 	}
 }
 
+/// Returns an error for text that can't be encoded as an `IA5String`.
+///
+/// Used for the fields that are typed as a plain `String` (the writer would panic on them).
+fn ensure_ia5(s: &str) -> Result<(), Error> {
+	match s.is_ascii() {
+		true => Ok(()),
+		false => Err(Error::InvalidAsn1String(InvalidAsn1String::Ia5String(
+			s.to_owned(),
+		))),
+	}
+}
+
 fn dt_strip_nanos(dt: OffsetDateTime) -> OffsetDateTime {
 	// Set nanoseconds to zero
 	// This is needed because the GeneralizedTime serializer would otherwise
